@@ -14,9 +14,9 @@ P = {
          "Rpsi and SdesItem accessors rely on `parse` being the only constructor (values are built before validation, so no type invariant)."),
  "C06": ("Trait contract `calculate_size == spec_calc` and `write_into_unchecked returns len` on every builder; the generic write_into is proved once "
          "against it (Ok(n) / OutputTooSmall(n) / same error); panic-freedom of every writer under exactly-sized buffers.",
-         "NACK builder glue (entries/calculate_size/write_into_unchecked) is trusted (external_body, bounded native cross-check only); third-party writers are assumed to satisfy the trait contract."),
+         "NACK builder: encoder next/entries/calculate_size/write loop are verified; assumed are BTreeSet iteration order (A-btree) and Iterator::count (A-count), cross-checked by the bounded NACK family; third-party writers are assumed to satisfy the trait contract."),
  "C07": ("`final(buf)@ == img_T(config)` for every builder, where img_T is the RFC image written in the independent RFC layer (rfc.rs); bit packing by bit_vector lemmas.",
-         "NACK builder image and FIR iteration order (A-hashiter) are assumed; rfc.rs itself is the oracle."),
+         "FIR iteration order (A-hashiter), BTreeSet order (A-btree) and FirBuilder::add_ssrc are assumed (bounded NACK / FIR families stand in); rfc.rs itself is the oracle."),
  "C08": ("`parse is Ok ==> framed(...)` with count-dependent body bounds per type, header accessors equal the RFC header functions; generic helper proved for all P.",
          "third-party P must have MIN_PACKET_LEN >= 4 and VERSION == 2 (precondition of the public helper)."),
  "C09": ("Every accessor's result equals the RFC field function of the input bytes (big-endian values, sub-ranges at RFC offsets); must-accept direction via `accept <==> *_ok`.",
@@ -35,7 +35,7 @@ P = {
  "C16": ("`calculate_size is Ok <==> representable(config)` and `Err(e) ==> e names a violated rule with the offending value` per builder.",
          "total size > 65536 words is a recorded known finding (carve-out on the total-size clause)."),
  "C17": ("Frame clauses: written bytes equal the image (independent of old contents), bytes beyond n unchanged, failed writes leave the buffer unchanged; proved for every writer and the generic write_into.",
-         "NACK builder glue trusted."),
+         "A-btree / A-count for the NACK builder (bounded family stands in)."),
  "C18": ("Every Err exit of every parser satisfies err_truthful; exact Truncated/TooLarge clauses for short inputs and length-field mismatches.", "—"),
  "C19": ("Public helpers proved generically in P; UnknownBuilder image; tests/custom_packet.rs verified as an instance of a third-party type.",
          "one recorded known finding in the third-party example (CustomBuilder::calculate_size)."),
@@ -43,18 +43,18 @@ P = {
          "Cow conversions keep bytes (A-cow); derive(Default) builders start empty (external_body contracts)."),
  "C02": ("Round trip stated as verified programs over the real API (build into an exactly sized buffer, parse, read every field and block back) plus spec-level lemmas "
          "`sr_ok(img_sr(cfg))`, `field(img) == cfg.field`; composed only from the contracts of the real writer and parser functions.", "—"),
- "C03": ("Lemma rfc tokenisation of img_sdes.", "—"),
+ "C03": ("SDES round trip: lemmas over the contracts (a chunk image is accepted by the RFC 3550 chunk grammar as exactly its items; the chunk images tile the packet body; "
+         "any value whose chunks are the tokenisation of the image has the configured SSRCs, item types, values and PRIV prefixes) and the verified program vp_roundtrip_sdes "
+         "(real SdesBuilder -> bytes -> Sdes::parse -> padding(), count(), chunks(), item data read back through the accessor contracts).",
+         "total size <= 2^18 bytes (known finding D12 above that); Cow conversions keep bytes (A-cow); sums of item / chunk sizes fit usize (A-lang)."),
  "C04": ("BYE and APP round trips as verified build-then-parse programs plus image lemmas (sources, reason present iff configured, name zero-filled, data, padding).",
          "APP payloads above the 65536-word limit are excluded (known finding D12)."),
  "C05": ("Feedback header round trip (lemma_fb_image) and FCI round trips for FIR, SLI, RPSI, PLI as verified build-then-parse programs "
-         "(borrowed FCI builder -> feedback builder -> bytes -> parse -> parse_fci -> iterator start state whose RFC enumeration equals the configured entries).",
-         "The NACK builder image is an assumed contract (run-length encoder glue is external_body); the NACK half of the round trip is cross-checked only by the bounded native search. FIR entry order is the map's iteration order (A-hashiter)."),
+         "(borrowed FCI builder -> feedback builder -> bytes -> parse -> parse_fci -> iterator start state whose RFC enumeration equals the configured entries), and the same for generic NACK.",
+         "NACK: lemma_roundtrip_nack (RFC 4585 decoder after the greedy run-length image is the identity on strictly increasing lists) and vp_roundtrip_nack are proved; assumed are A-btree / A-count (bounded NACK family stands in). FIR entry order is the map's iteration order (A-hashiter)."),
 }
-CLAIMED = ["C01", "C02", "C04", "C05", "C06", "C07", "C08", "C09", "C10", "C11", "C12", "C13", "C14", "C15", "C16", "C17", "C18", "C19", "C20"]
-NA = {"C02": "round-trip lemma not yet built in this session (writer image and accessor contracts it would compose are proved under C07/C09)",
-      "C03": "SDES round-trip lemma not yet built in this session",
-      "C04": "round-trip lemma not yet built in this session",
-      "C05": "round-trip lemma not yet built in this session"}
+CLAIMED = ["C01", "C02", "C03", "C04", "C05", "C06", "C07", "C08", "C09", "C10", "C11", "C12", "C13", "C14", "C15", "C16", "C17", "C18", "C19", "C20"]
+NA = {}
 m = {
  "version": 1,
  "setup_cmd": "cd /verif && ./setup.sh",
@@ -78,7 +78,7 @@ for pid in CLAIMED:
         "engine": "vgen+verus",
         "level_claimed": {"category": "proof", "text": text, "design_ref": "DESIGN.md sections 3-4 (%s)" % pid},
         "level_note": COMMON_NOTE + " Property-specific: " + note,
-        "technique": "contract-based deductive verification: Verus requires/ensures/invariants on the real functions (extracted mechanically each run), obligations discharged by Z3; native replay only for witnesses",
+        "technique": "contract-based deductive verification: Verus requires/ensures/invariants on the real functions (extracted mechanically each run), obligations discharged by Z3; properties composing several functions are lemmas and verified build-then-parse programs over those contracts; a native replay binary is used only to turn a failed obligation into a concrete input, to replay recorded findings and for the bounded stand-ins of assumed contracts",
     })
 json.dump(m, open(os.path.join(HERE, "MANIFEST.json"), "w"), indent=1)
 print("MANIFEST.json written:", len(m["checks"]), "checks,", len(m["not_applicable"]), "not applicable")
